@@ -70,6 +70,7 @@ type Path struct {
 	assertsConcrete int
 	concRun   int
 	noStubs   bool
+	cutOff    bool
 	dom       map[int32]*[4]uint64
 	multi     map[int32]bool
 	allMulti  bool
@@ -316,11 +317,11 @@ func (w *Worker) branch(c *Term) bool {
 	fv, tset, fset, fast := w.fastSplit(c)
 	if fast {
 		if setEmpty(tset) {
-			w.ex.fastOne++
+			w.fastOne++
 			return false
 		}
 		if setEmpty(fset) {
-			w.ex.fastOne++
+			w.fastOne++
 			return true
 		}
 		if p.multi[fv] || p.allMulti {
@@ -360,7 +361,7 @@ func (w *Worker) branch(c *Term) bool {
 		copy(alt, p.decisions)
 		alt[i] = Decision{Taken: !dir}
 		w.ex.push(WorkItem{forced: alt, model: m})
-		w.ex.fastTwo++
+		w.fastTwo++
 		p.decisions = append(p.decisions, Decision{Taken: dir})
 		if dir {
 			w.assertLit(c)
@@ -771,6 +772,9 @@ func (ex *Explorer) record(w *Worker, r PathResult) {
 	ex.decisionsTotal += int64(r.Decisions)
 	ex.stepsTotal += int64(r.Steps)
 	ex.assertsSolver += int64(w.p.asserts)
+	ex.fastOne += w.fastOne
+	ex.fastTwo += w.fastTwo
+	w.fastOne, w.fastTwo = 0, 0
 	ex.assertsConcrete += int64(w.p.assertsConcrete)
 	if r.Decisions > ex.maxDecisions {
 		ex.maxDecisions = r.Decisions
